@@ -28,11 +28,13 @@ MIN = {"quick": {"evaluations": 700, "nontrivial": 250, "counters": {"c18_snapsh
 ASSUMPTIONS = ["integer encodings are used only where every value is integral (contexts always; rewards when binary)",
                "a Series as contexts is one column when there are several decisions and one row when there is one (the library's documented disambiguation)"]
 
-ENCODINGS = ["nd_c", "nd_f", "int", "object", "view", "series", "series_shift", "frame"]
+ENCODINGS = ["nd_c", "nd_f", "int", "object", "view", "series", "series_shift", "frame", "list_mixed"]
 
 
 def enc1(values, e, kind):
     """encode a 1-D sequence (decisions / rewards)"""
+    if e == "list_mixed":
+        return [int(v) if (not isinstance(v, str) and float(v).is_integer() and kind == "r") else v for v in values]
     if e in ("nd_c", "nd_f", "frame"):
         return np.asarray(values)
     if e == "int":
@@ -60,6 +62,11 @@ def enc2(X, e):
     if X is None:
         return None
     A = np.asarray(X, dtype=float)
+    if e == "list_mixed":
+        # nested Python lists in which integral values are ints and the others floats (what hand-written data looks like)
+        return [[int(v) if float(v).is_integer() else float(v) for v in row] for row in X]
+    if e == "int" and not np.all(A == np.floor(A)):
+        e = "nd_c"  # an integer matrix cannot hold these values
     if e == "nd_c":
         return np.ascontiguousarray(A)
     if e == "nd_f":
@@ -108,6 +115,12 @@ def run_std(rs, ctx, l, p, e):
         b2["d"] = [b2["d"][0]] * n2  # a batch in which every row belongs to one arm (no row selection needed inside the library)
     ctxual = gen.is_ctx(cfg)
     Q = gen.gen_contexts(rs, int(gen.pick(rs, [1, 2, 3, 5])), nf if ctxual else 2)
+    if e == "list_mixed" or rs.integers(4) == 0:
+        # fractional values in all rows but the first (the first row of a nested list stays integral)
+        for M_ in ([b1["X"], b2["X"]] if ctxual else []) + [Q]:
+            for row in (M_ or [])[1:]:
+                for j in range(len(row)):
+                    row[j] = row[j] + float(gen.pick(rs, [0.0, 0.25, 0.5, 0.75]))
     use_q = ctxual or bool(rs.integers(2))
     warm = gen.gen_warm(rs, cfg["arms"]) if p == "none" else None
     outs = {}
@@ -231,7 +244,7 @@ def run_case(rs, ctx):
         return run_series(rs, ctx, l, p, "one_feature")
     if slot == 6:
         return run_series(rs, ctx, l, p, "one_row")
-    e = ENCODINGS[slot] if slot < 5 else ENCODINGS[5 + int(rs.integers(3))]
+    e = ENCODINGS[slot] if slot < 5 else ENCODINGS[5 + int(rs.integers(4))]
     return run_std(rs, ctx, l, p, e)
 
 
